@@ -345,12 +345,44 @@ static void rand_pointer(char *out)
 	case 4: sprintf(out + strlen(out), "/%d", 2 + (int)vh_below(6)); break;
 	case 5: strcat(out, "/~"); break;
 	case 6: strcat(out, "x"); break;
-	case 7: strcat(out, "/1152921504606846976"); break; /* 2^60 */
+	case 7:
+	case 11:
+	{
+		/* index tokens around the widths an implementation may compute in: 2^31, 2^32, 2^63, 2^64 (+ small
+		 * offsets, so that a value reduced modulo the width would be a valid index) and longer ones */
+		static const char *big[] = {"1152921504606846976", "2147483647", "2147483648", "4294967295", "4294967296", "4294967297", "4294967298",
+		                            "9223372036854775807", "9223372036854775808", "9223372036854775809", "18446744073709551615",
+		                            "18446744073709551616", "18446744073709551617", "18446744073709551618", "18446744073709551619",
+		                            "36893488147419103232", "36893488147419103233", "184467440737095516160", "184467440737095516161",
+		                            "340282366920938463463374607431768211456", "340282366920938463463374607431768211457",
+		                            "100000000000000000000", "99999999999999999999", "00", "000000000000000000000"};
+		strcat(out, "/");
+		strcat(out, big[vh_below(sizeof big / sizeof *big)]);
+		if (vh_below(3) == 0)
+			strcat(out, "/a");
+		break;
+	}
 	case 8: strcat(out, "/~2"); break;
 	case 9: strcat(out, "/a~1b"); break;
 	case 10: strcat(out, "/0"); break;
 	default: break;
 	}
+}
+/* an index token of 9 or more digits below 2^64: json_pointer_set would really pad the array with that many nulls */
+static int pads_gigabytes(const char *p)
+{
+	while (*p)
+	{
+		if (*p == '/')
+			p++;
+		const char *t = p;
+		size_t n = strcspn(p, "/");
+		p += n;
+		if (n >= 9 && strspn(t, "0123456789") >= n && t[0] != '0')
+			if (n < 20 || (n == 20 && strncmp(t, "18446744073709551615", 20) < 0))
+				return 1;
+	}
+	return 0;
 }
 static int drive(int start, int nexec, int nops)
 {
@@ -371,7 +403,7 @@ static int drive(int start, int nexec, int nops)
 			rand_pointer(p);
 			if (p[0] == 0 && vh_below(2))
 				continue;
-			if (vh_below(3))
+			if (vh_below(3) || pads_gigabytes(p))
 				do_get(p, (int)vh_below(2));
 			else if (p[0])
 			{
